@@ -167,7 +167,7 @@ def run_shard(ctx):
     nk = len(F.RECOGNISED)
     for i in range(ctx.params['cases']):
         if i % 5 == 4:
-            case = {'backend': 'sqlite', 'spec': T.gen_table(rng, allow_nul=True)}
+            case = {'backend': 'sqlite', 'spec': T.gen_table(rng, allow_nul=True, allow_pk=True)}
         elif i < nk and ctx.shard % 4 == 0:
             kind = F.RECOGNISED[i % nk]
             spec = F.gen_frame(rng, kinds=[kind], nrows=rng.choice([1, 2, 3, 21, 30]))
